@@ -8,12 +8,12 @@ from fractions import Fraction as F
 from mc import domains as D
 from mc.engine import BfsPart, InputPart, Viol
 from mc.models import ival
-from mc.props.common import IT, PT, errors, PE, call, ents, wellformed, canon, mk, constants
+from mc.props.common import IT, PT, errors, PE, call, ents, wellformed, canon, mk, constants, fresh
 
 Interval = constants.Interval
 Point = constants.Point
-CMODES = ("error", "replace", "merge")
-RMODES = ("silence", "warning")
+CMODES = fresh(("error", "replace", "merge"))
+RMODES = fresh(("silence", "warning"))
 LABCAP = 7
 
 
